@@ -299,7 +299,7 @@ func poseidonDrv(raw json.RawMessage, resp *drv.Response) error {
 		}
 		// one chip used for several hashes, results read only at the end: a result must not depend on (or be disturbed by) what the
 		// same chip hashed before or after
-		if req.Shard%2 == 0 {
+		if req.Shard%2 == 0 && req.Mode != "commit" { // (the commit checker needs the padded circuit; the sequence runs under the other two)
 			type call struct {
 				in []*big.Int
 				m  int // 0 = HashNoPad
